@@ -36,6 +36,14 @@ def gen_cases(tier, seed):
         for j in range(k):
             kind = r.choice(["fifo", "sock", "chr", "chr", "chr"] + (["blk"] if r.random() < 0.15 else []))
             p = ("node%d" % j) if sole else r.choice(["src/node%d" % j, "src/sub/node%d" % j, "src/sub/n\xffode%d" % j])
+            if not sole and r.random() < 0.15:
+                # a destination path longer than a socket address can hold (108 bytes): a node is made by name, not bound
+                cur = "src"
+                for lv in range(3):
+                    cur += "/" + "long-directory-name-%d-" % lv + "x" * 20
+                    if not any(e_["p"] == cur for e_ in spec):
+                        spec.append({"p": cur, "k": "d"})
+                p = cur + "/node%d" % j
             e = {"p": p, "k": kind, "mode": r.choice([0o644, 0o600, 0o666, 0o777, 0o000, 0o640, 0o444, 0o622, r.randrange(0o1000), 0o1666, 0o2664, 0o4755, 0o7777])}
             if kind in ("chr", "blk"):
                 e["rdev"] = list(r.choice(DEVS))
@@ -58,6 +66,11 @@ def gen_cases(tier, seed):
             dstp = "dst/" + nodes[0]["p"]
             if prior != "fresh":
                 pre += [{"p": "dst", "k": "d"}, {"p": "dst/src", "k": "d"}, {"p": "dst/src/sub", "k": "d"}]
+                par, chain = os.path.dirname(dstp), []
+                while par not in ("dst", "dst/src", "dst/src/sub"):
+                    chain.append(par)
+                    par = os.path.dirname(par)
+                pre += [{"p": d_, "k": "d"} for d_ in reversed(chain)]
         if prior == "file":
             pre.append({"p": dstp, "k": "f", "size": 5, "seed": 9, "segs": None})
         elif prior == "node":
